@@ -391,7 +391,7 @@ def _run_history(spec, mk, prior_kind, ck, t0, acc=None):
         hook_plain(s, lk)
 
     def set_discard(b):
-        if rec is not None and cur_s['s'] is s:
+        if rec is not None and cur_s['s'] is rec.s:
             rec.set_discard(b)
         else:
             cur_s['s'].discard_exploration = b
@@ -404,7 +404,7 @@ def _run_history(spec, mk, prior_kind, ck, t0, acc=None):
             n0 = len(lk_.calls)
             nlike0 = int(s_.n_like)
             ret = s_.run(**kw)
-            if rec is not None and s_ is s:
+            if rec is not None and s_ is rec.s:
                 rec.sync_phase()
             stats['returns'].append(bool(ret))
             n_shell = kw.get('n_shell', 1)
@@ -437,16 +437,17 @@ def _run_history(spec, mk, prior_kind, ck, t0, acc=None):
             if fingerprint(s_) != before:
                 fails['C12'].append(('toggle-does-not-restore', 'switching discard_exploration twice changed a statistic or the posterior', {}))
         elif step[0] == 'resume':
-            # a new sampler object resumed from the checkpoint file; the call log continues
-            if rec is not None and state['req'] is None:
-                state['req'] = (rec.request(), [o[:120] for o in rec.ops], list(rec.states), list(rec.outs))
-            before = fingerprint(s_) if (s_.bounds and ck and os.path.exists(ck)) else None
+            # a new sampler object resumed from the checkpoint file; the call log and the recording continue
             s2, lk2 = _make(mk, prior_kind, ck, True)
             lk2.calls = list(lk_.calls)
             stats['resumes'] += 1
-            hook_plain(s2, lk2)
-            cur_s['s'], cur_s['lk'] = s2, lk2
-            boundary('R')
+            if rec is not None and s_ is rec.s:
+                cur_s['s'], cur_s['lk'] = s2, lk2
+                rec.rebind(s2, lk2)          # records `R` and the abstraction of the resumed sampler (-> boundary('R'))
+            else:
+                hook_plain(s2, lk2)
+                cur_s['s'], cur_s['lk'] = s2, lk2
+                boundary('R')
     s_, lk_ = cur_s['s'], cur_s['lk']
     for key, what, d in eval_c03(s_, lk_):
         fails['C03'].append((key, what, d))
@@ -684,7 +685,8 @@ def report(chk, pid, results, inv_names):
             n_dis += len(r['dis']) + len(bad_inv)
             acc = bool(r['fails'][pid])
             chk.correspondence_broken('Sampler history vs Core model (%s seed %s)' % (r['spec']['make'].get('kind'), r['spec']['make'].get('seed')),
-                                      {'disagreements': r['dis'][:2], 'false_invariants_on_real_state': bad_inv[:3], 'spec': spec},
+                                      {'disagreements': r['dis'][:2], 'false_invariants_on_real_state': bad_inv[:3], 'spec': spec,
+                                       'recorder_notes': (r.get('stats') or {}).get('notes', [])[:6]},
                                       accounted=acc)
         chk.sample({'make': r['spec']['make'], 'script': r['spec']['script'], 'ops': r.get('n_ops'), 'first_ops': r.get('ops'), 'stats': r['stats']}, cap=3)
     chk.count(total_ops, nontriv)
